@@ -151,6 +151,7 @@ func c19prop(ev *evid.Rec) func(rt *rapid.T) {
 		}
 		nlogin := rapid.IntRange(2, 8).Draw(rt, "nlogins")
 		staleTmp := rapid.IntRange(0, 3).Draw(rt, "staleTmp") == 0
+		editAgreement := rapid.IntRange(0, 2).Draw(rt, "editAgreement") == 0
 		overlap := false
 		inWorld(rt, hlsim.Options{Agreement: string(agreement), Board: string(initial), Accounts: []hlsim.AccountSpec{acct("admin", "Admin", "adminpw", func() hlref.Access { a := hlref.AllAccess().Defined(); a.Clear(hlref.PrivNoAgreement); return a }())}}, func(rt *rapid.T, w *hlsim.World) {
 			if staleTmp {
@@ -257,6 +258,16 @@ func c19prop(ev *evid.Rec) func(rt *rapid.T) {
 						}
 					}
 				}
+			}
+			// ---- the operator may have edited the agreement file (with the line ends of its editor) and reloaded it:
+			// "the complete current text" is then the new file, line ends converted like at start-up
+			if editAgreement {
+				edited := bytes.ReplaceAll(append([]byte("NEW TERMS\n"), agreement...), []byte("\r"), []byte("\n"))
+				must(os.WriteFile(filepath.Join(w.Cfg, "Agreement.txt"), edited, 0o644))
+				if err := w.Agreement.Reload(); err != nil {
+					rt.Fatalf("agreement reload: %v", err)
+				}
+				agreement = bytes.ReplaceAll(edited, []byte("\n"), []byte("\r"))
 			}
 			// ---- simultaneous logins against the agreement
 			var ls []*hlsim.Conn
